@@ -107,6 +107,7 @@ sim::Config sched_from_plan(const Json& plan)
     c.hot_buckets = static_cast<unsigned>(s.num("hot_buckets", 0)) & 0xffffu;
     for (size_t i = 0; i < s.get("hot_sites").size(); ++i) c.hot_sites.push_back(s.get("hot_sites").at(i).as_str());
     c.hot_pause_p = static_cast<double>(s.num("hot_pause_permille", 0)) / 1000.0;
+    c.hot_thread_prefix = s.str("hot_thread_prefix", "");
     c.max_pauses = static_cast<sim::u64>(std::max<long long>(0, s.num("max_pauses", 64)));
     c.start_delay_p = static_cast<double>(s.num("start_delay_permille", 0)) / 1000.0;
     c.start_delay_max_ns = s.num("start_delay_max_us", 2000) * 1000;
